@@ -54,9 +54,15 @@ func VerifC11Payloader() {
 		p.pictureID = id
 	}
 	verifC11Frame("C11.f1", p, mtu, id, frame)
+	// the id advances with every frame, carried or not
+	next := (id + 1) & 0x7FFF
+	verifAssert("C11.id-advance", p.pictureID == next)
+	if verifCase("toggle", 0, 1) == 1 {
+		// EnablePictureID is an exported field: a change applies to the very next frame
+		p.EnablePictureID = !p.EnablePictureID
+		verifCover("C11.toggled")
+	}
 	if p.EnablePictureID {
-		next := (id + 1) & 0x7FFF
-		verifAssert("C11.id-advance", p.pictureID == next)
 		frame2 := verifBytes("frame2", 2)
 		verifC11Frame("C11.f2", p, mtu, next, frame2)
 		if next == 0 {
@@ -66,6 +72,8 @@ func VerifC11Payloader() {
 			verifCover("C11.id-127-128")
 		}
 		verifCover("C11.pictureid")
+	} else if verifCase("toggle-off-frame", 0, 1) == 1 {
+		verifC11Frame("C11.f2", p, mtu, next, verifBytes("frame2", 2))
 	}
 	verifCover("C11.payloader.end")
 }
@@ -157,6 +165,26 @@ func VerifC11Descriptor() {
 	var e VP8Packet
 	_, err = e.Unmarshal(nil)
 	verifAssert("C11.d.nil", err != nil)
+	// the same receiver after a packet it rejected: a cut-short descriptor with other
+	// flags, then the first packet again decodes to the same fields
+	junk := []byte{0x80, verifU8("junk.flags") | 0x80, verifU8("junk.byte")}[:verifCase("junk.len", 1, 3)]
+	if _, jerr := d.Unmarshal(junk); jerr != nil {
+		verifCover("C11.d.rejected-in-between")
+	}
+	out, err = d.Unmarshal(pkt)
+	verifAssert("C11.d.again.accept", err == nil && verifEqBytes(out, body))
+	verifAssert("C11.d.again.flags", (d.X == 1) == x && (d.I == 1) == i && (d.L == 1) == l && (d.T == 1) == t && (d.K == 1) == k)
+	verifAssert("C11.d.again.fields", d.PictureID == picID && d.TL0PICIDX == tl0 && d.N == b0>>5&1 && d.S == b0>>4&1 && d.PID == b0&7)
+	if t {
+		verifAssert("C11.d.again.tid", d.TID == tk>>6 && d.Y == tk>>5&1)
+	} else {
+		verifAssert("C11.d.again.no-tid", d.TID == 0 && d.Y == 0)
+	}
+	if k {
+		verifAssert("C11.d.again.keyidx", d.KEYIDX == tk&0x1F)
+	} else {
+		verifAssert("C11.d.again.no-keyidx", d.KEYIDX == 0)
+	}
 	if len(desc) == 6 {
 		verifCover("C11.d.longest")
 	}
